@@ -264,4 +264,256 @@ theorem emitMatchD_seq (P : Params) (cap : Nat) (src : Array UInt8) (hb : P.byU1
       refine ⟨hseg, by dsimp only; omega, hoff, by dsimp only; omega, ?_, by dsimp only; omega, by dsimp only; omega⟩
       exact ⟨by dsimp only; omega, by dsimp only; omega, hsc2, hti2⟩
 
+theorem stepD_last (P : Params) (cap : Nat) (src : Array UInt8) (st st' : StD) (h : stepD P cap src st = .last st') : st'.anchor = st.anchor := by
+  unfold stepD at h
+  dsimp only at h
+  split at h
+  · injection h with h; rw [← h]
+  · cases hp : st.pending with
+    | some m =>
+      rw [hp] at h
+      dsimp only at h
+      exact (emitMatchD_last P cap src st _ _ _ _ _ _ st' h).1
+    | none =>
+      rw [hp] at h
+      dsimp only at h
+      cases hs : search P src (src.size - LZ4V.Gen.MFLIMIT + 1) (src.size + 1) st.ip 1 (P.accel <<< LZ4V.Gen.LZ4_skipTrigger) st.tbl with
+      | none => rw [hs] at h; injection h with h; rw [← h]
+      | some r =>
+        obtain ⟨ip, m, tbl⟩ := r
+        rw [hs] at h
+        dsimp only at h
+        split at h
+        · injection h with h; rw [← h]
+        · exact (emitMatchD_last P cap src _ _ _ _ _ _ _ st' h).1
+
+theorem stepD_seq (P : Params) (cap : Nat) (src : Array UInt8) (hb : P.byU16 = true → src.size < 65547) (ha : 1 ≤ P.accel) (hn : 13 ≤ src.size)
+    (st : StD) (s : PSeq) (st' : StD) (hi : InvD P src st) (h : stepD P cap src st = .seq s st') : EmittedD P src st.anchor s st' := by
+  obtain ⟨i1, i2, isc, i3⟩ := hi
+  unfold stepD at h
+  dsimp only at h
+  split at h
+  · cases h
+  · cases hp : st.pending with
+    | some m =>
+      rw [hp] at h i3
+      dsimp only at h i3
+      obtain ⟨p1, p2, p3, p4, p5, p6⟩ := i3
+      rw [p6]
+      exact emitMatchD_seq P cap src hb st st.ip m (st.op + 1) st.op st.ip 0 s st' h rfl p2 (fun _ => p3) 0 (eq4_spec src st.ip m (by
+        unfold eq4 at p4 ⊢
+        simp only [Bool.and_eq_true, beq_iff_eq] at p4 ⊢
+        obtain ⟨⟨⟨q0, q1⟩, q2⟩, q3⟩ := p4
+        exact ⟨⟨⟨q0.symm, q1.symm⟩, q2.symm⟩, q3.symm⟩)) (by omega) p1 isc (Or.inl rfl)
+    | none =>
+      rw [hp] at h i3
+      dsimp only at h i3
+      have c1 : LZ4V.Gen.MFLIMIT = 12 := rfl
+      have c6 : LZ4V.Gen.LZ4_skipTrigger = 6 := rfl
+      cases hs : search P src (src.size - LZ4V.Gen.MFLIMIT + 1) (src.size + 1) st.ip 1 (P.accel <<< LZ4V.Gen.LZ4_skipTrigger) st.tbl with
+      | none => rw [hs] at h; cases h
+      | some r =>
+        obtain ⟨ip, m, tbl⟩ := r
+        rw [hs] at h
+        dsimp only at h
+        have hnb : 64 ≤ P.accel <<< LZ4V.Gen.LZ4_skipTrigger := by
+          rw [c6, Nat.shiftLeft_eq]
+          have : (2 : Nat) ^ 6 = 64 := by decide
+          rw [this]; omega
+        obtain ⟨s1, s2, s3, s4, s5, s6⟩ := search_spec P src _ _ _ _ _ _ ip m tbl hs i3 (Nat.le_refl 1) hnb
+        have ssc := search_SC P src _ _ _ _ _ _ ip m tbl hs isc
+        rw [c1] at s2
+        obtain ⟨d, d1, d2, d3, d4⟩ := catchUp_spec src st.anchor src.size ip m 4 (by omega) s3 (eq4_spec src ip m (by
+          unfold eq4 at s5 ⊢
+          simp only [Bool.and_eq_true, beq_iff_eq] at s5 ⊢
+          obtain ⟨⟨⟨q0, q1⟩, q2⟩, q3⟩ := s5
+          exact ⟨⟨⟨q0.symm, q1.symm⟩, q2.symm⟩, q3.symm⟩))
+        generalize hc : catchUp src st.anchor src.size ip m = c at h d1 d2 d3 d4
+        split at h
+        · cases h
+        · exact emitMatchD_seq P cap src hb _ c.1 c.2 _ _ st.anchor (c.1 - st.anchor) s st' h (by omega) (by omega)
+            (fun hbb => by have := s4 hbb; omega) d d4 (by omega) (by
+              have e : c.1 + d + 1 = ip + 1 := by omega
+              rw [e]; exact s6) ssc (Or.inr (by dsimp only; omega))
+
+theorem runD_spec (P : Params) (cap : Nat) (src : Array UInt8) (hb : P.byU16 = true → src.size < 65547) (ha : 1 ≤ P.accel) (hn : 13 ≤ src.size) :
+    ∀ (fuel : Nat) (st : StD), InvD P src st →
+    PV src st.anchor (runD P cap src fuel st).1 (runD P cap src fuel st).2.anchor ∧ (runD P cap src fuel st).2.anchor ≤ src.size ∧
+    (∀ s ∈ (runD P cap src fuel st).1, 4 ≤ s.ml ∧ 1 ≤ s.off ∧ s.off ≤ 65535 ∧ s.lit + s.ll + 12 ≤ src.size) ∧
+    ((runD P cap src fuel st).1 ≠ [] → (runD P cap src fuel st).2.anchor + 5 ≤ src.size) := by
+  intro fuel
+  induction fuel with
+  | zero =>
+    intro st hi
+    simp only [runD]
+    exact ⟨rfl, hi.2.1, (fun s hs => by cases hs), (fun h => absurd rfl h)⟩
+  | succ f ih =>
+    intro st hi
+    unfold runD
+    cases hs : stepD P cap src st with
+    | last st1 =>
+      dsimp only
+      have := stepD_last P cap src st st1 hs
+      exact ⟨by simp only [PV]; exact this.symm, by rw [this]; exact hi.2.1, (fun s hs => by cases hs), (fun h => absurd rfl h)⟩
+    | seq s st1 =>
+      dsimp only
+      obtain ⟨e1, e2, e3, e4, e5, e6, e7⟩ := stepD_seq P cap src hb ha hn st s st1 hi hs
+      obtain ⟨r1, r2, r3, r4⟩ := ih st1 e5
+      refine ⟨⟨e1, by rw [← e4]; exact r1⟩, r2, ?_, ?_⟩
+      · intro x hx
+        rcases List.mem_cons.mp hx with rfl | hx'
+        · exact ⟨e2, e1.2.1, e3, by rw [e1.1]; exact e7⟩
+        · exact r3 x hx'
+      · intro _
+        by_cases hl1 : (runD P cap src f st1).1 = []
+        · have : (runD P cap src f st1).2.anchor = st1.anchor := by
+            have := r1
+            rw [hl1] at this
+            simp only [PV] at this
+            exact this.symm
+          omega
+        · exact r4 hl1
+
+theorem runDTR_eq (P : Params) (cap : Nat) (src : Array UInt8) : ∀ (fuel : Nat) (st : StD) (acc : List PSeq),
+    runDTR P cap src fuel st acc = (acc.reverse ++ (runD P cap src fuel st).1, (runD P cap src fuel st).2) := by
+  intro fuel
+  induction fuel with
+  | zero => intro st acc; simp [runDTR, runD]
+  | succ f ih =>
+    intro st acc
+    unfold runDTR runD
+    cases hs : stepD P cap src st with
+    | last st1 => simp
+    | seq s st1 =>
+      dsimp only
+      rw [ih st1 (s :: acc)]
+      simp [List.reverse_cons, List.append_assoc]
+
+theorem lastRunD_le (cap op L : Nat) : lastRunD cap op L ≤ L := by
+  unfold lastRunD
+  split
+  · dsimp only; omega
+  · exact Nat.le_refl _
+
+/-- everything the destSize model returns: a valid tiling of `[0, anchor)` and a last run inside the input -/
+theorem compressDP_spec (P : Params) (cap : Nat) (src : Array UInt8) (ts : Nat) (tr : Bool) (hb : P.byU16 = true → src.size < 65547) (ha : 1 ≤ P.accel)
+    (l : List PSeq) (anchor lr : Nat) (h : compressDP P cap src ts tr = some (l, anchor, lr)) :
+    PV src 0 l anchor ∧ anchor + lr ≤ src.size ∧ (∀ s ∈ l, 4 ≤ s.ml ∧ 1 ≤ s.off ∧ s.off ≤ 65535 ∧ s.lit + s.ll + 12 ≤ src.size) := by
+  unfold compressDP at h
+  dsimp only at h
+  have c13 : LZ4V.Gen.LZ4_minLength = 13 := rfl
+  split at h
+  · cases h
+  · split at h
+    · cases h
+    · split at h
+      · simp only [Option.some.injEq, Prod.mk.injEq] at h
+        obtain ⟨rfl, rfl, rfl⟩ := h
+        exact ⟨rfl, by have := lastRunD_le cap 0 src.size; omega, (fun s hs => by cases hs)⟩
+      · rename_i hmin
+        rw [c13] at hmin
+        have hinv : InvD P src { anchor := 0, ip := 1, tbl := (Array.replicate ts 0).setIfInBounds (P.hash 0) 0, op := 0 } :=
+          ⟨by dsimp only; omega, by dsimp only; omega, (SC.replicate P ts).set 0, (TI.replicate ts).set _ _ (by omega)⟩
+        obtain ⟨r1, r2, r3, _⟩ := runD_spec P cap src hb ha (by omega) (src.size + 1) _ hinv
+        cases tr with
+        | true =>
+          simp only [↓reduceIte, Option.some.injEq, Prod.mk.injEq] at h
+          rw [runDTR_eq] at h
+          simp only [List.reverse_nil, List.nil_append] at h
+          obtain ⟨rfl, rfl, rfl⟩ := h
+          exact ⟨r1, Nat.le_trans (Nat.add_le_add_left (lastRunD_le _ _ _) _) (by omega), r3⟩
+        | false =>
+          simp only [Bool.false_eq_true, ↓reduceIte, Option.some.injEq, Prod.mk.injEq] at h
+          obtain ⟨rfl, rfl, rfl⟩ := h
+          exact ⟨r1, Nat.le_trans (Nat.add_le_add_left (lastRunD_le _ _ _) _) (by omega), r3⟩
+
+/-! ## validity with respect to a prefix of the input -/
+
+theorem PV_le (src : Array UInt8) : ∀ (l : List PSeq) (a a' : Nat), PV src a l a' → a ≤ a' := by
+  intro l
+  induction l with
+  | nil => intro a a' h; simp only [PV] at h; omega
+  | cons s rest ih => intro a a' h; have := ih _ _ h.2; omega
+
+/-- `PV_valid` for the first `c` bytes of the input, when the tiling ends at or before `c` -/
+theorem PV_valid_prefix (src : Array UInt8) (c : Nat) (hc : c ≤ src.size) : ∀ (l : List PSeq) (a a' : Nat), PV src a l a' → a' ≤ c →
+    ValidParse ((src.toList.take c).take a) (l.map (toSeq src)) ((src.toList.take c).drop a') (src.toList.take c) := by
+  have hlenL : (src.toList.take c).length = c := by rw [List.length_take, Array.length_toList]; omega
+  have hget : ∀ i, i < c → (src.toList.take c)[i]? = some (byteAt src i) := by
+    intro i hi
+    rw [List.getElem?_take_of_lt hi, toList_getElem? src i (by omega)]
+  intro l
+  induction l with
+  | nil =>
+    intro a a' h _
+    simp only [PV] at h
+    subst h
+    simp only [List.map_nil, ValidParse]
+    exact (List.take_append_drop a _).symm
+  | cons s rest ih =>
+    intro a a' h ha'
+    obtain ⟨⟨hl, ho1, ho2, hn, hb⟩, hrest⟩ := h
+    have hle := PV_le src rest _ _ hrest
+    simp only [List.map_cons, ValidParse]
+    have hlits : (toSeq src s).lits = ((src.toList.take c).drop a).take s.ll := by
+      rw [toSeq_lits, hl]
+      apply List.ext_getElem?
+      intro i
+      by_cases hi : i < s.ll
+      · rw [List.getElem?_take_of_lt hi, List.getElem?_take_of_lt hi, List.getElem?_drop, List.getElem?_drop,
+            toList_getElem? src _ (by omega), hget _ (by omega)]
+      · rw [List.getElem?_eq_none (by rw [List.length_take]; omega), List.getElem?_eq_none (by rw [List.length_take]; omega)]
+    have hout : (src.toList.take c).take a ++ (toSeq src s).lits = (src.toList.take c).take (a + s.ll) := by
+      rw [hlits, List.take_add]
+    have hoff : (toSeq src s).off = s.off := rfl
+    have hml : (toSeq src s).ml = s.ml := rfl
+    refine ⟨((src.toList.take c).drop (a + s.ll)).take s.ml, ?_, ?_, ?_, ?_, ?_⟩
+    · rw [List.length_take, List.length_drop, hml, hlenL]; omega
+    · rw [hoff]; exact ho1
+    · rw [hout, hoff, List.length_take, hlenL]; omega
+    · intro k hk
+      have hk' : k < s.ml := by
+        rw [List.length_take, List.length_drop, hlenL] at hk; omega
+      rw [hout, ← List.take_add, List.length_take, hlenL, hoff]
+      have e1 : min (a + s.ll) c = a + s.ll := by omega
+      rw [e1]
+      have hL1 : (List.take (a + s.ll + s.ml) (List.take c src.toList))[a + s.ll + k]? = some (byteAt src (a + s.ll + k)) := by
+        rw [List.getElem?_take_of_lt (by omega)]; exact hget _ (by omega)
+      have hL2 : (List.take (a + s.ll + s.ml) (List.take c src.toList))[a + s.ll + k - s.off]? = some (byteAt src (a + s.ll + k - s.off)) := by
+        rw [List.getElem?_take_of_lt (by omega)]; exact hget _ (by omega)
+      rw [hL1, hL2, hb k hk']
+    · rw [hout, ← List.take_add]
+      exact ih _ _ hrest ha'
+
+/-- **destSize is lossless on what it consumed**: the block `compressDestSize` returns decodes, by the specification decoder, to
+    exactly the first `consumed` bytes of the input -/
+theorem compressDestSize_prefix (src : Array UInt8) (acceleration : Int) (target : Nat) (consumed : Nat) (blk : List UInt8)
+    (h : compressDestSize src acceleration target = some (consumed, blk)) :
+    consumed ≤ src.size ∧ decode [] blk = some (src.toList.take consumed) := by
+  unfold compressDestSize at h
+  cases hc : compressDP (fastParams src acceleration 0 1) target src (fastTableSize src) true with
+  | none => rw [hc] at h; cases h
+  | some r =>
+    obtain ⟨l, anchor, lr⟩ := r
+    rw [hc] at h
+    simp only [Option.some.injEq, Prod.mk.injEq] at h
+    obtain ⟨rfl, rfl⟩ := h
+    obtain ⟨p1, p2, p3⟩ := compressDP_spec (fastParams src acceleration 0 1) target src (fastTableSize src) true (fastParams_byU16 src acceleration 0 1) (fastParams_accel src acceleration 0 1) l anchor lr hc
+    refine ⟨p2, ?_⟩
+    have hv := PV_valid_prefix src (anchor + lr) p2 l 0 anchor p1 (by omega)
+    simp only [List.take_zero] at hv
+    have hlast : (src.extract anchor (anchor + lr)).toList = (src.toList.take (anchor + lr)).drop anchor := by
+      simp only [Array.toList_extract, List.extract]
+      apply List.ext_getElem?
+      intro i
+      by_cases hi : i < lr
+      · rw [List.getElem?_take_of_lt (by omega), List.getElem?_drop, List.getElem?_drop, List.getElem?_take_of_lt (by omega)]
+      · rw [List.getElem?_eq_none (by rw [List.length_take]; omega),
+            List.getElem?_eq_none (by rw [List.length_drop, List.length_take, Array.length_toList]; omega)]
+    rw [hlast]
+    exact roundtrip [] _ _ _ (fun s hs => by
+      obtain ⟨x, hx, rfl⟩ := List.mem_map.mp hs
+      obtain ⟨q1, _, q3, _⟩ := p3 x hx
+      exact ⟨q1, by show x.off < 65536; omega⟩) (by simpa using hv)
+
 end LZ4V.Model.FastDS
